@@ -1,7 +1,8 @@
 /-
 Driver arm for Model/TablePipeline.lean.
 
-  table save <R> (<C_r> <cell>{C_r}){R}
+  table save <wideBefore> <R> (<C_r> <cell>{C_r}){R}     (wideBefore = `should_use_wide_rows` before the save:
+                                                          the save only ever sets the flag)
       cell  = kind/payload/text/stringId/ids      ids = twelve `n`|int separated by `;`
       reply = ok numRows numCols tileSize wide nextListID S n (key:refcount:text){n}
                  T t (tileid:numrows:bnc:k (idx:count:offsets:storage){k}){t}
@@ -53,9 +54,9 @@ def showSavedTile (t : SavedTile) : String :=
   " ".intercalate (s!"{t.tileid}:{t.numrows}:{if t.lastSavedInBNC then 1 else 0}:{t.rowInfos.length}" ::
     t.rowInfos.map showSavedRow)
 
-def showSaved (s : SavedTable) : String :=
+def showSaved (wideBefore : Bool) (s : SavedTable) : String :=
   " ".intercalate ([toString s.numRows, toString s.numCols, toString s.tileSize,
-    if s.setsWideRows then "1" else "0", toString s.nextListID, "S", toString s.strings.length] ++
+    if wideBefore || s.setsWideRows then "1" else "0", toString s.nextListID, "S", toString s.strings.length] ++
     s.strings.map tpShowEntry ++ ["T", toString s.tiles.length] ++ s.tiles.map showSavedTile)
 
 def parseLoadRow (w : String) : Option SavedRow :=
@@ -95,10 +96,11 @@ def showLGrid (g : List (List LCell)) : String :=
     " ".intercalate (toString row.length :: row.map showLCell))
 
 def handleTable : List String → Option String
-  | "save" :: ws => do
+  | "save" :: before :: ws => do
+    let before ← parseBool before
     let (rows, rest) ← tpParseCounted (tpParseCounted (tpOne parseTCell)) ws
     if !rest.isEmpty then none
-    pure (showPyM showSaved (saveTable rows))
+    pure (showPyM (showSaved before) (saveTable rows))
   | "load" :: nr :: nc :: ts :: "M" :: ws => do
     let (refs, ws) ← tpParseCounted (tpOne tpParseRef) ws
     match ws with
